@@ -402,6 +402,42 @@ class ApiGen:
                 holder.add_attribute(a)
                 api.add_attribute(a)
             self.feat("legacy_camel_case_mixin")
+            # a flagged type first rendered NEXT TO another type that raises the same marker, then alone in a later
+            # declaration of the same module: each declaration needs its own marker
+            Tt = self.T
+            str_t = Tt.NamedType("str", "builtins.str")
+
+            def plain_top(name, params):
+                fid = f"{m0.id}/{name}"
+                ps = [A.Parameter(f"{fid}/{n}", n, False, None, A.ParameterAssignment.POSITION_OR_NAME, D.ParameterDocstring(), t)
+                      for n, t in params]
+                f = A.Function(id=fid, name=name, docstring=D.FunctionDocstring(), is_public=path_public, is_static=False,
+                               is_class_method=False, is_property=False, result_docstrings=[], type_var_types=[], results=[],
+                               reexported_by=[], parameters=ps)
+                m0.add_function(f)
+                api.add_function(f)
+            plain_top("zz_combine", [("left", Tt.TupleType([int_t, int_t])), ("right", Tt.TupleType([str_t, str_t]))])
+            plain_top("zz_lookup", [("key", Tt.TupleType([str_t, str_t]))])
+            plain_top("zz_collect", [("items", Tt.SetType([int_t])), ("more", Tt.SetType([str_t]))])
+            plain_top("zz_unique", [("names", Tt.SetType([str_t]))])
+            # a class defined in a LATER module, re-exported by the root package under an ALIAS, and used as the superclass of
+            # public classes in an earlier and in the same later module: every subclass must name the same superclass
+            self._zz_alias_reexport = None
+            if len(modules) >= 2 and modules[-1] is not m0:
+                ml = modules[-1]
+                ml_public = not any(seg.startswith("_") for seg in ml.id.split("/"))
+                shape = A.Class(id=f"{ml.id}/ZzShape", name="ZzShape", superclasses=[], is_public=ml_public, docstring=D.ClassDocstring())
+                api.add_class(shape)
+                ml.add_class(shape)
+                all_classes.append(("ZzShape", shape.id.replace("/", "."), shape))
+                for owner, nm in ((m0, "ZzBox"), (ml, "ZzTile")):
+                    pub = not any(seg.startswith("_") for seg in owner.id.split("/"))
+                    c = A.Class(id=f"{owner.id}/{nm}", name=nm, superclasses=[shape.id.replace("/", ".")], is_public=pub,
+                                docstring=D.ClassDocstring())
+                    api.add_class(c)
+                    owner.add_class(c)
+                    all_classes.append((nm, c.id.replace("/", "."), c))
+                self._zz_alias_reexport = (shape.id.replace("/", "."), "ZzBaseShape")
         # __init__ modules with reexports
         inits = []
         for sp in subpkgs:
@@ -444,6 +480,14 @@ class ApiGen:
                     inits.append(A.Module(id_=pid, name="__init__", qualified_imports=[A.QualifiedImport(f"{tm.id.replace('/', '.')}.{d}", None)],
                                           wildcard_imports=[]))
                 self.feat("reexport_depth_inversion")
+        if getattr(self, "_zz_alias_reexport", None):
+            q, alias = self._zz_alias_reexport
+            root_init = next((im for im in inits if im.id == "pkg"), None)
+            if root_init is None:
+                root_init = A.Module(id_="pkg", name="__init__", qualified_imports=[], wildcard_imports=[])
+                inits.insert(0, root_init)
+            root_init.qualified_imports.append(A.QualifiedImport(q, alias))
+            self.feat("aliased_superclass_reexport")
         for im in inits:
             for qi in im.qualified_imports:
                 api.reexport_map[qi.qualified_name].add(im)
